@@ -59,21 +59,31 @@ def main():
         rnd = random.Random(os.getpid())
         names = ('/cpppo/automata.py', '/cpppo/server/enip/device.py', '/cpppo/server/enip/logix.py', '/cpppo/server/enip/ucmm.py', '/cpppo/server/enip/main.py')
 
-        shared = ('Attribute.', 'Logix.request', 'Logix.reply_elements')
+        # Where to widen windows.  CORE: the code that reads and writes the state all sessions share (the tag store, the per-thread
+        # closure lists of the shared parser, one-time object creation): a quarter of its lines sleep for real (0.5 ms).  HANDLERS: the
+        # request handlers around it, between whose statements other sessions may run: one line in twenty.  Everything else (the
+        # parsing machinery, which works on per-session state) is left alone -- its lines are disabled for this tool, so it runs at
+        # full speed and the windows above stay large relative to the length of a request; pre-emption there still comes from the
+        # tiny switch interval.  (Instrumenting every line made a request take ~0.5 s, and a 1 ms window was never hit.)
+        core = ('Attribute.__setitem__', 'Attribute.__getitem__', 'dfa_post.__exit__', 'dfa_post.post_process_closure')
+        handlers = ('Logix.request', 'Logix.reply_elements', 'Message_Router.request', 'state_multiple_service.', 'UCMM.request', 'Connection_Manager.request',
+                    'Connection_Manager.forward_open', 'Connection_Manager.forward_close', 'Object.request', 'setup', 'setup_tag', 'enip_srv_tcp', 'stats_for')
 
         def on_line(code, line):
-            if not code.co_filename.endswith(names):
+            q = code.co_qualname
+            if not code.co_filename.endswith(names) or not q.startswith(core + handlers):
                 return mon.DISABLE
-            # Aim at the shared mutable state: inside the methods of the tag store itself (class Attribute) and of the Logix request
-            # handler a quarter of the lines sleep for real (0.5 ms), so that the window between two statements of one request is long
-            # enough for other sessions' requests to reach the same tag whatever the machine load; elsewhere sleep(0) at rate yield_p.
             r = rnd.random()
-            if code.co_qualname.startswith(shared):
+            if q.startswith(core):
                 if r < 0.25:
                     stats['yields'] += 1
                     stats['long_yields'] = stats.get('long_yields', 0) + 1
-                    time.sleep(0.0005)
-            elif r < yield_p:
+                    time.sleep(0.002)
+            elif r < 0.004:
+                stats['yields'] += 1
+                stats['long_yields'] = stats.get('long_yields', 0) + 1
+                time.sleep(0.0005)
+            elif r < 0.05:
                 stats['yields'] += 1
                 time.sleep(0)
         mon.register_callback(TOOL, mon.events.LINE, on_line)
